@@ -47,7 +47,7 @@ func genDerive(r *KRng, client string) *WDerive {
 		return nil
 	}
 	d := &WDerive{}
-	switch r.N(6) {
+	switch r.N(7) {
 	case 0:
 		d.Builder = "nil"
 	case 1:
@@ -63,6 +63,26 @@ func genDerive(r *KRng, client string) *WDerive {
 	case 3:
 		d.Builder = "multi"
 		d.P = []int64{int64(r.N(3)), int64(r.N(6)), int64(r.Pick(900, 1100, 1180)), int64(r.N(4)), int64(r.Pick(300, 700, 1000))}
+	case 4:
+		// planned flights (absolute CRYPTO ranges): one datagram for the small ClientHellos, two for Chrome 146
+		d.Builder = r.Pick2("flight", "rflight")
+		if strings.HasPrefix(client, "chrome146") {
+			d.P = []int64{int64(r.Range(550, 800)), int64(r.Range(200, 330)), 1, int64(r.N(3)), int64(r.N(4))}
+		} else {
+			d.P = []int64{0, int64(r.Range(20, 200)), 0, int64(r.N(3)), int64(r.N(4))}
+		}
+		return d // a planned flight fixes the layout: keep the rest of the spec as it is
+	}
+	if r.P(0.15) && (d.Builder == "" || d.Builder == "nil") && !strings.HasPrefix(client, "chrome") {
+		// per-datagram plans: exact CRYPTO byte counts and exact packet sizes over a 3-4 datagram ClientHello
+		d.Builder = "nil"
+		d.PadCH = r.Pick(1300, 2400, 3000)
+		n := 2 + r.N(3)
+		for i := 0; i < n; i++ {
+			d.Plans = append(d.Plans, r.Pick(300, 500, 800, 999), r.Pick(1200, 1200, 1250))
+		}
+		d.Plans = append(d.Plans, 0, 1200)
+		return d
 	}
 	if r.P(0.4) {
 		d.InitPN = int64(r.Pick(-1, 1, 2, 7, 200, 60000, 1<<20))
@@ -172,6 +192,14 @@ func runDial(t *testing.T, ksc KScenario, res *KResult) {
 		if !sc.Net.Explicit {
 			sc.Net.Explicit = true
 			sc.Faults = w.Fired
+		}
+		if res.KeepLog {
+			for _, p := range w.Tap.All {
+				if p.Conn != nil && (p.Type == TapInitial || p.Type == TapRetry || p.Type == TapHandshake) {
+					rec := w.Log[p.Dir][p.Ord]
+					res.Logf("all: conn %d shadow=%v %d %s dgram=%d {%s-> %v} scid=%x dcid=%x client=%s", p.Conn.ID, p.Conn.Shadow, p.SentNS/1000, p.String(), rec.Size, rec.Fate, rec.Delivered, p.SCID, p.DCID, rec.Client)
+				}
+			}
 		}
 		wo.Finish()
 		w.FeedShape()
@@ -316,7 +344,7 @@ func runDial(t *testing.T, ksc KScenario, res *KResult) {
 			// rejected (C09 wants that to happen before anything is sent); only the rest of the family is claimed by C02.
 			d := sc.Cfg.Derive
 			multi := (d != nil && d.PadCH > 0) || strings.HasPrefix(sc.Cfg.Client, "chrome146")
-			feasible := d == nil || !multi || d.Builder == "random" || d.Builder == "multi" ||
+			feasible := d == nil || !multi || d.Builder == "random" || d.Builder == "multi" || d.Builder == "flight" || d.Builder == "rflight" || len(d.Plans) > 0 ||
 				((d.Builder == "" || d.Builder == "keep") && strings.HasPrefix(sc.Cfg.Client, "chrome"))
 			nothingSent := len(w.Log[0]) == sentBefore
 			if feasible && nothingSent && cp.err != nil && strings.Contains(cp.err.Error(), "does not fit the packet buffer") {
@@ -467,7 +495,9 @@ func checkInitialFlight(w *World, n *Nodes, sc *DialScenario, di int, cp *dialCa
 		if i > 0 && !bytes.Equal(p.Token, ff[0].Token) {
 			report("C10", "packets of one Initial flight carry different tokens", "dial #%d", di)
 		}
-		if n.Spec.UDPDatagramMinSize > 0 && rec.Size < n.Spec.UDPDatagramMinSize {
+		// (a datagram with an exact PacketSize in its plan is that size: the plan, being per datagram, overrides the minimum)
+		exact := len(ips.InitialPackets) > 0 && ips.InitialPackets[min(i, len(ips.InitialPackets)-1)].PacketSize > 0
+		if n.Spec.UDPDatagramMinSize > 0 && rec.Size < n.Spec.UDPDatagramMinSize && !exact {
 			report("C10", "Initial datagram smaller than the specified minimum UDP size", "dial #%d pkt %d: %d < %d", di, i, rec.Size, n.Spec.UDPDatagramMinSize)
 		}
 		if rec.Size < 1200 {
@@ -501,6 +531,33 @@ func checkInitialFlight(w *World, n *Nodes, sc *DialScenario, di int, cp *dialCa
 		}
 	}
 	_ = tokens
+	// per-datagram plans: exact CRYPTO byte count (fixing the next datagram's split offset) and exact packet size
+	if len(ips.InitialPackets) > 0 && !retried {
+		next := uint64(0)
+		for i, p := range ff {
+			plan := ips.InitialPackets[min(i, len(ips.InitialPackets)-1)]
+			var nbytes, lo uint64
+			lo = ^uint64(0)
+			for k := range p.Frames {
+				if f := &p.Frames[k]; f.Name == "CRYPTO" {
+					nbytes += f.Length
+					lo = min(lo, f.Offset)
+				}
+			}
+			if nbytes > 0 && lo != next {
+				report("C10", "CRYPTO split offset of an Initial datagram differs from the per-datagram plan", "dial #%d datagram %d: CRYPTO starts at %d, the plan puts it at %d", di, i, lo, next)
+			}
+			remaining := uint64(chLen) - next
+			if plan.CryptoLength > 0 && remaining >= uint64(plan.CryptoLength) && nbytes != uint64(plan.CryptoLength) {
+				report("C10", "CRYPTO byte count of an Initial datagram differs from the per-datagram plan", "dial #%d datagram %d: %d bytes, plan %d", di, i, nbytes, plan.CryptoLength)
+			}
+			next += nbytes
+			if plan.PacketSize > 0 && p.Size != plan.PacketSize {
+				report("C10", "Initial packet size differs from the exact size of the per-datagram plan", "dial #%d datagram %d: %d bytes, plan %d", di, i, p.Size, plan.PacketSize)
+			}
+		}
+		res.Probe("plans-checked")
+	}
 }
 
 func isGreaseU16(v uint16) bool { return v&0x0f0f == 0x0a0a && v>>8 == v&0xff }
